@@ -94,6 +94,12 @@ def r_serde(f):
                 if lit == "data":
                     names = [x[2] for x in walk(v) if x[0] == "call"]
                     getter = "cells" if "cells" in names else (names[0] if names else None)
+                    if getter in (None, "new", "with_capacity"):
+                        # a Vec filled by `self.cells().for_each(|c| data.push(c))` / a for loop over cells() pushing each cell
+                        cells_loops = [t2 for _, t2, fn2 in b.calls() if fn2 and fn2["name"] in ("for_each", "into_iter", "extend", "collect") and any(y[0] == "call" and y[2] == "cells" for a2 in t2["args"] for y in walk(d.expr(a2)))]
+                        pushes = [1 for c in [b] + b.closures() for _, _, fn2 in c.calls() if fn2 and fn2["path"].startswith("alloc::vec::Vec::<T, A>::push")]
+                        if cells_loops and (pushes or any((t2["func"].get("fn") or {}).get("name") in ("extend", "collect") for t2 in cells_loops)):
+                            getter = "cells"
                     if getter is None:
                         # a crate wrapper type around the view whose own Serialize impl writes the sequence of cells()
                         for x in walk(v):
